@@ -216,19 +216,18 @@ Definition pair_ffd (G nj no : nat) (B_a : list (list Cc)) (PDv : list (list (li
   build G (fun s => build no (fun o =>
     ffd_entry nj (fun k => nth2 (c0 Op) B_a k o) (fun k => nth3 (c0 Op) PDv s o k))).
 
-(* everything for one pair, from the shared data *)
-Definition pair_all (thr : T) (thr_di : T * T * T) (evs : list (list T)) (Vs Qs : list Matc) (omega : list T)
-           (basis : list Matc) (dts ts : list T) (N : Matc) (s_row : list T) (Cm : Matc)
-           (use_ncd : bool) (ncd_row : list T) : list (list (list Cc)) :=
-  let G := length dts in let nj := length basis in let no := length omega in
-  let phases := sh_phase ts omega G in
-  let BTs := sh_BT Vs basis in
+(* per control operator: (c_opers_transformed[g], liouville_deriv[t][s][j][k]) *)
+Definition ctrl_data (G nj : nat) (evs : list (list T)) (Vs Qs : list Matc) (dts : list T)
+           (X : list (list (list Matc))) (Cm : Matc) : list Matc * list (list (list (list T))) :=
+  let CBs := ctrl_CB Vs Cm in (CBs, ctrl_LD G nj Qs (ctrl_UDT evs Vs Qs dts CBs) X).
+(* per pair, from the shared data, the noise operator with its sensitivities and the control data: [s][o][k] *)
+Definition pair_of (G nj no : nat) (phases : list (list Cc)) (BTs ints : list (list Matc)) (DIs : list (list Arr4))
+           (Ls : list (list (list T))) (Vs : list Matc) (N : Matc) (s_row : list T)
+           (cd : list Matc * list (list (list (list T)))) (use_ncd : bool) (ncd_row : list T) : list (list (list Cc)) :=
   let NTs := noise_NT Vs N s_row G in
-  let CBs := ctrl_CB Vs Cm in
-  let steps := noise_steps G nj no phases BTs (sh_ints thr evs dts omega) NTs in
-  let SD := pair_SD G nj no phases BTs (sh_DIs thr_di evs dts omega) NTs CBs steps use_ncd ncd_row s_row in
-  let LD := ctrl_LD G nj Qs (ctrl_UDT evs Vs Qs dts CBs) (sh_X Qs basis G) in
-  pair_deriv G nj no (sh_Ls Qs basis) steps SD LD.
+  let steps := noise_steps G nj no phases BTs ints NTs in
+  let SD := pair_SD G nj no phases BTs DIs NTs (fst cd) steps use_ncd ncd_row s_row in
+  pair_deriv G nj no Ls steps SD (snd cd).
 
 (* calculate_derivative_of_control_matrix_from_scratch: result [a][h][s][o][k]
    (the package's axis order is [h, o, s, a, k]); ncd[a][h][g] *)
@@ -241,17 +240,10 @@ Definition ctrlmat_deriv (thr : T) (thr_di : T * T * T) (evs : list (list T)) (V
   let ints := sh_ints thr evs dts omega in
   let DIs := sh_DIs thr_di evs dts omega in
   let Ls := sh_Ls Qs basis in
-  let X := sh_X Qs basis G in
-  let cdata := map (fun Cm => let CBs := ctrl_CB Vs Cm in
-                              (CBs, ctrl_LD G nj Qs (ctrl_UDT evs Vs Qs dts CBs) X)) copers in
-  build (length nopers) (fun a =>
-    let s_row := nthv ncoeffs a in
-    let NTs := noise_NT Vs (nthm nopers a) s_row G in
-    let steps := noise_steps G nj no phases BTs ints NTs in
-    build (length copers) (fun h =>
-      let cd := nth h cdata ([], []) in
-      let SD := pair_SD G nj no phases BTs DIs NTs (fst cd) steps use_ncd (nth2 [] ncd a h) s_row in
-      pair_deriv G nj no Ls steps SD (snd cd))).
+  let cdata := map (ctrl_data G nj evs Vs Qs dts (sh_X Qs basis G)) copers in
+  build (length nopers) (fun a => build (length copers) (fun h =>
+    pair_of G nj no phases BTs ints DIs Ls Vs (nthm nopers a) (nthv ncoeffs a) (nth h cdata ([], []))
+            use_ncd (nth2 [] ncd a h))).
 
 (* PulseSequence.get_filter_function_derivative after identifier resolution:
    result [a][s][h][o] (the package's axis order); Bm = get_control_matrix(omega)[n_idx] *)
